@@ -5,6 +5,7 @@ import (
 	"encoding/json"
 	"fmt"
 	"math/rand"
+	"sort"
 	"strconv"
 	"strings"
 	"unicode/utf8"
@@ -377,6 +378,15 @@ var hotKeys = map[string]bool{
 	"events": true, "created": true, "generated": true, "digest": true, "enabled": true, "repository": true, "kind": true,
 }
 
+var hotKeyList = func() []string {
+	var ks []string
+	for k := range hotKeys {
+		ks = append(ks, k)
+	}
+	sort.Strings(ks)
+	return ks
+}()
+
 func pickSlot(rng *rand.Rand, root *node) (slot, bool) {
 	var sl []slot
 	walk(root, "", 0, &sl)
@@ -506,7 +516,11 @@ func mutateTree(rng *rand.Rand, root *node, donor *node) (*node, string) {
 		}
 		tgt.vals = append(tgt.vals[:pos:pos], append([]*node{sc("null")}, tgt.vals[pos:]...)...)
 		if tgt.kind == kMap {
-			tgt.keys = append(tgt.keys[:pos:pos], append([]*node{str(fmt.Sprintf("nullkey%d", rng.Intn(3)))}, tgt.keys[pos:]...)...)
+			k := fmt.Sprintf("nullkey%d", rng.Intn(3))
+			if rng.Intn(3) > 0 {
+				k = hotKeyList[rng.Intn(len(hotKeyList))] // a field name the strict decoders know
+			}
+			tgt.keys = append(tgt.keys[:pos:pos], append([]*node{str(k)}, tgt.keys[pos:]...)...)
 		}
 		return root, "null-entry"
 	case 9:
